@@ -69,6 +69,12 @@ def isRandomState {G : Type} : Val G → Bool
   | .rs _ => true
   | _ => false
 
+instance {ε α : Type} [DecidableEq ε] [DecidableEq α] : DecidableEq (Except ε α)
+  | .ok a, .ok b => if h : a = b then isTrue (h ▸ rfl) else isFalse (fun e => h (Except.ok.inj e))
+  | .error a, .error b => if h : a = b then isTrue (h ▸ rfl) else isFalse (fun e => h (Except.error.inj e))
+  | .ok _, .error _ => isFalse (fun e => by cases e)
+  | .error _, .ok _ => isFalse (fun e => by cases e)
+
 /-- a Python computation over the process state. -/
 def M (G : Type) (α : Type) : Type := World G → World G × Except Exc α
 
